@@ -140,6 +140,10 @@ fn expect(c: &Case) -> Exp {
                 }
             }
         }
+        4 if c.form >= 2 => {
+            // forms 2 / 3: a zero-sized slice of l elements built in place (l may exceed isize::MAX): counts only
+            o.extend([(l / n) as i64, (l % n) as i64]);
+        }
         4 => {
             if n == 0 {
                 if l > 0 {
@@ -266,6 +270,7 @@ fn gen_module(id: usize, c: &Case, exp: &Exp, with_const: bool) -> String {
     // sources
     let chunked = matches!(c.f, 5 | 6 | 7);
     let total = match c.f {
+        4 if c.form >= 2 => 0,
         2 | 3 | 4 => l,
         5 | 6 | 7 => l * n,
         _ => n,
@@ -353,6 +358,13 @@ fn gen_module(id: usize, c: &Case, exp: &Exp, with_const: bool) -> String {
             if mutf && c.f == 2 {
                 let _ = write!(body, "\n        {{ let mut i = 0; while i < {l} {{ put!(o, k, enc(src[i])); i += 1; }} }}");
             }
+        }
+        4 if c.form >= 2 => {
+            let (m, amp) = if c.form == 3 { ("_mut", "&mut ") } else { ("", "&") };
+            let _ = write!(
+                body,
+                "let mut a = [(); {l}]; {{ let (ch, rem) = GenericArray::<T, N>::chunks_from_slice{m}({amp}a); put!(o, k, ch.len()); put!(o, k, rem.len()); }}"
+            );
         }
         4 => {
             let (o1, o2) = if n == 0 {
@@ -996,6 +1008,14 @@ fn enumerate(tier: &str, big: bool) -> Vec<Case> {
         for n in if thorough { vec![65536, 262144, 524288, 1048576] } else { vec![524288, 1048576] } {
             for ty in [0, 3] {
                 cs.push(Case { f: 13, n, l: 0, ty, form: 1 });
+            }
+        }
+        // zero-sized slices longer than isize::MAX elements (0 bytes): chunk count and remainder at compile time
+        for l in [isize::MAX as usize + 6, usize::MAX - 7] {
+            for n in [3usize, 8] {
+                for form in [2, 3] {
+                    cs.push(Case { f: 4, n, l, ty: 3, form });
+                }
             }
         }
         return cs;
